@@ -28,6 +28,7 @@ def main():
     name = sid
     wt = "/tmp/wt_" + sid
     checks = None
+    root = None        # isolated copy prepared by tools/seediso.sh (repo + verif), else /repo and /verif themselves
     args = sys.argv[2:]
     while args:
         a = args.pop(0)
@@ -35,6 +36,8 @@ def main():
             checks = args.pop(0).split(",")
         elif a == "--name":
             name = args.pop(0)
+        elif a == "--root":
+            root = args.pop(0)
         else:
             wt = a
     prop = sid[:3]
@@ -77,22 +80,24 @@ def main():
           and meta["confirmed"]["demo_without_change"]["passed"] > 0)
     meta["confirmed"]["all"] = ok
     # our checks against it
-    rc, o = sh("git -C /repo apply --check %s" % os.path.join(dest, "patch.diff"))
+    repo = os.path.join(root, "repo") if root else "/repo"
+    vdir = os.path.join(root, "verif") if root else VERIF
+    rc, o = sh("git -C %s apply --check %s" % (repo, os.path.join(dest, "patch.diff")))
     if rc != 0:
         meta["checks"]["apply"] = "patch does not apply to /repo HEAD: " + o[-300:]
     else:
-        sh("git -C /repo apply %s" % os.path.join(dest, "patch.diff"))
+        sh("git -C %s apply %s" % (repo, os.path.join(dest, "patch.diff")))
         try:
             for c in checks:
                 t0 = time.time()
-                rc, o = sh("python3 tools/check.py %s --tier quick" % c, cwd=VERIF, timeout=3600)
+                rc, o = sh("python3 tools/check.py %s --tier quick" % c, cwd=vdir, timeout=3600)
                 viol = [l for l in o.splitlines() if l.startswith("VIOLATION")]
                 meta["checks"][c] = {"exit": rc, "violations": len(viol), "first": (viol[0] if viol else ""),
                                      "keys": [l.strip() for l in o.splitlines() if l.strip().startswith("key:")][:3],
                                      "wall_s": round(time.time() - t0, 1), "tail": o[-300:] if rc == 2 else ""}
                 ran.append("git -C /repo apply patch.diff; python3 tools/check.py %s --tier quick; git -C /repo checkout -- ." % c)
         finally:
-            sh("git -C /repo checkout -- .")
+            sh("git -C %s reset -q --hard HEAD" % repo)
     meta["ran"] = ran
     notes = os.path.join(dest, "notes.md")
     meta["needs"] = ""
